@@ -42,7 +42,20 @@ func (c15) Run(t *tape.Tape, st *Stats) *Violation {
 	opaque := t.Chance(1, 8)
 	par := parallelismOf(t, rect.Dy())
 	sc, scDesc := DrawSchedule(t, [4]int{2, 3, 3, 4})
-	pre := drawEarlier(t, kind, rect)
+	pre := drawEarlier(t, kind, rect, in)
+	simrt.ResetSteps(2000000)
+	pre.run(func() {
+		switch helper {
+		case 0:
+			prism.ConvertImageToNRGBA(pre.Img.View, pre.Par)
+		case 1:
+			prism.ConvertImageToRGBA(pre.Img.View, pre.Par)
+		default:
+			prism.ConvertImageToRGBA64(pre.Img.View, pre.Par)
+		}
+	})
+	simrt.ResetSteps(0)
+	pre.mutate()
 	snap := in.clone()
 	var arg image.Image = in.View
 	if opaque {
@@ -78,16 +91,6 @@ func (c15) Run(t *tape.Tape, st *Stats) *Violation {
 	sameType := !opaque && ((helper == 0 && kind == kNRGBA) || (helper == 1 && kind == kRGBA) || (helper == 2 && kind == kRGBA64))
 	simrt.ResetSteps(2000000) // a run of this size takes a few thousand steps; beyond the budget it is a livelock
 	defer simrt.ResetSteps(0)
-	pre.run(func() {
-		switch helper {
-		case 0:
-			prism.ConvertImageToNRGBA(pre.Img.View, pre.Par)
-		case 1:
-			prism.ConvertImageToRGBA(pre.Img.View, pre.Par)
-		default:
-			prism.ConvertImageToRGBA64(pre.Img.View, pre.Par)
-		}
-	})
 	simrt.ResetSteps(2000000)
 	racesBefore := simrt.RaceErrors()
 	var got image.Image
